@@ -48,9 +48,9 @@ func main() {
 		Types: []string{"Test"}, DurationCustomType: "Duration", UseStateForUnknown: true, Sort: true,
 		ExcludeFields: []string{"Test.Excluded"}, ComputedFields: []string{"Test.Str"}, RequiredFields: []string{"Test.Str"},
 		SensitiveFields: []string{"Test.Str"}, Suffixes: map[string]string{"BoolCustom": "BoolSpecial"},
-		NameOverrides: map[string]string{"Test.Str": "str"},
-		TimeType:      &ir.SchemaType{Type: sp + "TimeType", ValueType: sp + "TimeValue", CastToType: "time.Time", CastFromType: "time.Time", TypeConstructor: sp + "UseTime()"},
-		DurationType:  &ir.SchemaType{Type: sp + "DurationType", ValueType: sp + "DurationValue", CastToType: "time.Duration", CastFromType: "time.Duration"},
+		NameOverrides:  map[string]string{"Test.Str": "str"},
+		TimeType:       &ir.SchemaType{Type: sp + "TimeType", ValueType: sp + "TimeValue", CastToType: "time.Time", CastFromType: "time.Time", TypeConstructor: sp + "UseTime()"},
+		DurationType:   &ir.SchemaType{Type: sp + "DurationType", ValueType: sp + "DurationValue", CastToType: "time.Duration", CastFromType: "time.Duration"},
 		InjectedFields: map[string][]ir.InjectedField{"Test": {{Name: "id", Type: "github.com/hashicorp/terraform-plugin-framework/types.StringType", Computed: true}}},
 		PlanModifiers:  map[string][]string{"Test.Str": {"github.com/hashicorp/terraform-plugin-framework/tfsdk.UseStateForUnknown()"}},
 		Validators:     map[string][]string{"Test.Str": {sp + "V(1)"}},
